@@ -427,7 +427,7 @@ func TestCLIKmerSweep(t *testing.T) {
 	if !run.Have("obikmersimcount") || !run.Have("obikmermatch") {
 		t.Skip("commands not built")
 	}
-	reps := evid.Pick(4, 24)
+	reps := evid.Pick(4, 16)
 	shard, n := evid.Shard(), evid.NShards()
 	job := 0
 	for _, cmd := range []string{"obikmersimcount", "obikmermatch"} {
